@@ -105,9 +105,12 @@ type Server struct {
 	// in pieces of 1..Segment bytes
 	Segment int
 	segSeed int
-	faults    map[int]Fault
+	faults  map[int]Fault
 	// Gate, when set, is called before each request is processed (after it was read).
-	Gate      func(conn int, r *Req)
+	Gate func(conn int, r *Req)
+	// GateAfter, when set, is called after a request was applied and before its reply is written
+	// (the value has been read, the caller has not heard of it yet).
+	GateAfter func(conn int, r *Req)
 	nextConn  int32
 	open      int32
 	accepted  int32
@@ -126,8 +129,8 @@ func (s *Server) Now() int64 {
 	}
 	return s.now
 }
-func (s *Server) OpenConns() int            { return int(atomic.LoadInt32(&s.open)) }
-func (s *Server) Accepted() int             { return int(atomic.LoadInt32(&s.accepted)) }
+func (s *Server) OpenConns() int { return int(atomic.LoadInt32(&s.open)) }
+func (s *Server) Accepted() int  { return int(atomic.LoadInt32(&s.accepted)) }
 
 // OpenConnIDs lists the ids (as PipeID / Req.Conn report them) of the connections that are
 // currently being served, ascending.
@@ -283,6 +286,16 @@ func (s *Server) ListenTCP() (net.Listener, error) {
 	return l, nil
 }
 
+// ListenTCPAt serves on the given loopback address (to bring a node back on its old address).
+func (s *Server) ListenTCPAt(addr string) (net.Listener, error) {
+	l, err := net.Listen("tcp", addr)
+	if err != nil {
+		return nil, err
+	}
+	s.acceptLoop(l)
+	return l, nil
+}
+
 func (s *Server) acceptLoop(l net.Listener) {
 	go func() {
 		for {
@@ -396,6 +409,9 @@ func (s *Server) serve(c io.ReadWriteCloser, id int) {
 			s.log = append(s.log, req)
 		}
 		s.mu.Unlock()
+		if g := s.GateAfter; g != nil {
+			g(id, &req)
+		}
 
 		switch f.Kind {
 		case FCloseAfterApply:
